@@ -12,6 +12,7 @@ and its alternatives (kind, operator tokens, associativity) are recorded so that
 table can be recomputed in Coq.  The same module exports the grammar as a Python structure
 (used by the harness generators), so generator and model read the grammar the same way.
 """
+import os
 import re
 import sys
 
@@ -527,6 +528,8 @@ def tok_set(e):
 def main():
     import hashlib
     src, dst = sys.argv[1], sys.argv[2]
+    if os.path.isdir(src):
+        src = os.path.join(src, "src", "blackbird.g4")
     sha = hashlib.sha256(open(src, "rb").read()).hexdigest()
     text = emit(grammar_model(read_grammar(src)), sha)
     try:
@@ -540,6 +543,6 @@ def main():
 if __name__ == "__main__":
     try:
         main()
-    except G4Error as e:
+    except (G4Error, OSError, ValueError) as e:
         print("G4Error: %s" % e, file=sys.stderr)
         sys.exit(2)
